@@ -1,6 +1,7 @@
 package main
 
 import (
+	"fmt"
 	"go/types"
 	"strings"
 
@@ -80,6 +81,8 @@ func init() {
 	register("C05",
 		"Structural necessary conditions of 'decoders are total and allocation-bounded': no guard arithmetic on a decoded count can wrap in a narrow unsigned type. (Further clauses are added by the shape interpreter.)",
 		ruleNarrowArith(inDecoders, 2),
+		ruleShapeFaults(shapeConfig{label: "hostile input", keep: func(string) bool { return false }, extra: hostileEntries, floor: 14,
+			override: hostileParams(40, 24), hostile: true, lim: Limits{MaxStates: 6000, MaxSteps: 20000, MaxVisits: 3, MaxDepth: 40}}),
 	)
 
 	register("C07",
@@ -333,3 +336,93 @@ func observerEntries(c *Ctx) []effectEntry {
 }
 
 var clipRegionFuncs = []regionFunc{{"clip", "bitCode", false}, {"clip", "bitCodeOpen", true}}
+
+// hostileParams: decoder inputs.  A []byte / string parameter gets every length
+// 0..max with attacker-chosen contents; an io.Reader is an arbitrary stream.
+func hostileParams(maxBytes, maxStr int) paramOverride {
+	return func(p *Program, fn *ssa.Function, par *ssa.Parameter) []argChoice {
+		t := par.Type()
+		byteSlice := func(n int) func(it *Interp, s *State) AV {
+			return func(it *Interp, s *State) AV {
+				arr := ArrV{N: n, Elems: make([]AV, n), Def: IntV{}}
+				for i := range arr.Elems {
+					arr.Elems[i] = IntV{}
+				}
+				it.inputLen = n
+				return SliceV{Arr: it.newCell(s, arr), Hi: n, Cap: n}
+			}
+		}
+		if sl, ok := t.Underlying().(*types.Slice); ok {
+			if b, ok := sl.Elem().Underlying().(*types.Basic); ok && b.Kind() == types.Uint8 {
+				var out []argChoice
+				out = append(out, argChoice{par.Name() + "=nil", func(it *Interp, s *State) AV { it.inputLen = 0; return SliceV{Nil: true} }})
+				mb := maxBytes
+				if strings.Contains(FuncKey(fn), "/mvt.") {
+					mb = 3 // the tile decoder looks at the raw bytes only through protoscan (modelled) and the two gzip magic bytes
+				}
+				for n := 0; n <= mb; n++ {
+					out = append(out, argChoice{fmt.Sprintf("%s=[%d]byte", par.Name(), n), byteSlice(n)})
+				}
+				return out
+			}
+		}
+		if b, ok := t.Underlying().(*types.Basic); ok && b.Info()&types.IsString != 0 {
+			var out []argChoice
+			for n := 0; n <= maxStr; n++ {
+				n := n
+				out = append(out, argChoice{fmt.Sprintf("%s=string(len %d)", par.Name(), n), func(it *Interp, s *State) AV {
+					it.inputLen = n
+					return StrV{LenKnown: true, Len: n}
+				}})
+			}
+			return out
+		}
+		if t.String() == "io.Reader" {
+			return []argChoice{{par.Name() + "=stream", func(it *Interp, s *State) AV { it.inputLen = 0; return IfaceV{} }}}
+		}
+		if pt, ok := t.Underlying().(*types.Pointer); ok {
+			if nt, ok := pt.Elem().(*types.Named); ok && nt.Obj().Name() == "Decoder" {
+				// a decoder over an arbitrary stream
+				return []argChoice{{par.Name() + "=decoder(stream)", func(it *Interp, s *State) AV {
+					it.inputLen = 0
+					st := nt.Underlying().(*types.Struct)
+					sv := StructV{Fields: make([]AV, st.NumFields())}
+					for i := range sv.Fields {
+						ft := st.Field(i).Type()
+						if ft.String() == "io.Reader" {
+							sv.Fields[i] = IfaceV{}
+						} else if fpt, ok := ft.Underlying().(*types.Pointer); ok {
+							// wrapped decoder (wkb.Decoder{dec: *wkbcommon.Decoder})
+							if in, ok := fpt.Elem().Underlying().(*types.Struct); ok {
+								inner := StructV{Fields: make([]AV, in.NumFields())}
+								for j := range inner.Fields {
+									if in.Field(j).Type().String() == "io.Reader" {
+										inner.Fields[j] = IfaceV{}
+									} else {
+										inner.Fields[j] = it.freeValue(s, in.Field(j).Type(), 1)
+									}
+								}
+								sv.Fields[i] = PtrV{Cell: it.newCell(s, inner)}
+							} else {
+								sv.Fields[i] = it.freeValue(s, ft, 1)
+							}
+						} else {
+							sv.Fields[i] = it.freeValue(s, ft, 1)
+						}
+					}
+					return PtrV{Cell: it.newCell(s, sv)}
+				}}}
+			}
+		}
+		return nil
+	}
+}
+
+var hostileEntries = []string{
+	"encoding/wkb.Unmarshal", "encoding/ewkb.Unmarshal", "encoding/internal/wkbcommon.Unmarshal",
+	"encoding/internal/wkbcommon.ScanPoint", "encoding/internal/wkbcommon.ScanMultiPoint", "encoding/internal/wkbcommon.ScanLineString",
+	"encoding/internal/wkbcommon.ScanMultiLineString", "encoding/internal/wkbcommon.ScanPolygon", "encoding/internal/wkbcommon.ScanMultiPolygon",
+	"encoding/internal/wkbcommon.ScanCollection",
+	"encoding/internal/wkbcommon.(*Decoder).Decode", "encoding/wkb.(*Decoder).Decode", "encoding/ewkb.(*Decoder).Decode",
+	"encoding/mvt.Unmarshal",
+}
